@@ -231,7 +231,7 @@ func runC13History(t *testing.T, rng *verifsim.RNG, nEvents int, manyPeers bool)
 				}
 				sort.Slice(cands, func(i, j int) bool { return cands[i].String() < cands[j].String() })
 				q := verifsim.Pick(rng, cands)
-				r := verifsim.Pick(rng, []string{"BOk", "BOk", "BOk", "BStale", "B400", "(BErrCode 437)", "BFail"})
+				r := verifsim.Pick(rng, []string{"BOk", "BOk", "BOk", "BStale", "B400", "(BErrCode 437)", "BFail", "BFail", "BFail"})
 				if r == "BStale" && w.pend[q.String()] >= 2 {
 					r = "BOk" // the third 438 in a row makes the client give up; not in the model
 				}
